@@ -2,6 +2,8 @@
 import os
 import re
 
+import vcheck
+
 ASSUMPTIONS = [
     "values are compared with Go's == on interface{}; the model uses natural numbers (the harness stores small ints)",
     "'$'-prefixed topics are not special in the property's relation nor in tree.go (DESIGN.md, C04 scope note)",
@@ -44,6 +46,23 @@ def run(ck):
             witnessed = True
         elif l.startswith("diff "):
             tie_only.append(l)
+    # topic.Parse / ContainsWildcards (Props/C04_parse.v, model Topic/Parse.v)
+    rc, out = vcheck.sh("timeout 1200 coqc -Q . GM -o %s Props/C04_parse.v" % os.path.join(ck.work, "C04_parse.vo"), cwd=vcheck.COQ)
+    pnames = re.findall(r"^\s*Theorem\s+(\w+)", open(os.path.join(vcheck.COQ, "Props", "C04_parse.v")).read(), re.M)
+    closed = out.count("Closed under the global context") if rc == 0 else 0
+    ck.theorems += pnames
+    ck.obligations += len(pnames)
+    ck.discharged += closed
+    if rc != 0 or closed != len(pnames) or re.search(r"^Axioms:", out, re.M):
+        ck.broken.append("Props/C04_parse.v: %d of %d theorems closed under the global context: %s" % (closed, len(pnames), out.strip()[-300:]))
+    ppath, _ = ck.harness("parse", extra=extra)
+    for l in ck.model("topic", "parse", ppath):
+        if l.startswith("propfail parse"):
+            m = re.search(r"input=(\S+)", l)
+            ck.fail_input("parse", l, ["parse %s" % m.group(1), l] if m else [l])
+            witnessed = True
+        elif l.startswith("diff "):
+            tie_only.append(l)
     if tie_only and not witnessed:
         # the implementation agrees with `matches` on every evaluated input but deviates from the trie model
         ck.fail_unwitnessed("correspondence Topic/Trie.v ~ topic.Tree match/search (%d disagreeing cases)" % len(tie_only), tie_only[:20])
@@ -56,5 +75,8 @@ def run(ck):
                "compared with MatchSpec.matches and with the trie model; %s random sets of 1..12 filters/names (13-level alphabet incl. empty, "
                "multi-byte UTF-8, '$SYS'; depth up to 12; shared prefixes; values 1..5 repeated across topics) x 16 queries derived from the "
                "stored topics (instantiated / generalised / perturbed), all four queries; distinct_nontrivial = distinct (filter, name) pairs "
-               "+ distinct (set, query) lines" % (ck.stats.get("exh_filters"), ck.stats.get("exh_names"), ck.stats.get("exh_depth"),
-                                                  ck.stats.get("random_sets")))
+               "+ distinct (set, query) lines; topic.Parse/ContainsWildcards: every string up to length %s over {a, /, +, #} and random "
+               "longer valid-UTF-8 strings (with NUL, '$', multi-byte), both values of allowWildcards (%s cases), compared with the model "
+               "Parse.parse and classified by Parse.parse_spec / normal_form" % (ck.stats.get("exh_filters"), ck.stats.get("exh_names"), ck.stats.get("exh_depth"),
+                                                  ck.stats.get("random_sets"), ck.stats.get("parse_exhaustive_depth"),
+                                                  ck.stats.get("parse_cases")))
